@@ -122,6 +122,18 @@ fn read_stats(h: &std::sync::Arc<[std::sync::atomic::AtomicU64; 4]>) -> [u64; 4]
     [h[0].load(SeqCst), h[1].load(SeqCst), h[2].load(SeqCst), h[3].load(SeqCst)]
 }
 
+/// The node-cache geometry of `Builder::new` in the tree under test: the translator reads it from the source
+/// (tools/srcparams.py -> src_registry_rows/cols) and tools/check exports it, so that re-tuning the cache in
+/// /repo is not reported as a divergence between front ends with and without the geometry hook.
+pub fn drows() -> usize {
+    static V: std::sync::OnceLock<usize> = std::sync::OnceLock::new();
+    *V.get_or_init(|| std::env::var("VERIF_REGISTRY_ROWS").ok().and_then(|s| s.parse().ok()).unwrap_or(10_000))
+}
+pub fn dcols() -> usize {
+    static V: std::sync::OnceLock<usize> = std::sync::OnceLock::new();
+    *V.get_or_init(|| std::env::var("VERIF_REGISTRY_COLS").ok().and_then(|s| s.parse().ok()).unwrap_or(2))
+}
+
 fn raw_builder(ty: u64, rows: usize, cols: usize) -> Builder<Vec<u8>> {
     Builder::verif_new_type_with_cache(Vec::new(), ty, rows, cols).unwrap()
 }
